@@ -14,7 +14,6 @@ from vlib import *
 from checks import c19_runner as R
 
 CL_TEMP = "inplace-temp-left-after-direct-exit"
-CL_ZSTD = "inplace-zstd-rewritten-uncompressed"
 JOBS = max(1, int(os.environ.get("VERIF_JOBS", "2")))      # parallel traced runs / coqc processes
 OC = {"Missing": 0, "RefusedEarly": 1, "CreateFails": 2, "RefusedAfterCreate": 3, "StreamFails": 4, "CloseFails": 5,
       "RenameFails": 6, "ChmodFails": 7, "Succeeds": 8}
@@ -41,6 +40,36 @@ def alone(ctx, args, name, content, extra=()):
         return st, out, err
     finally:
         shutil.rmtree(d, ignore_errors=True)
+
+
+ZSTD_MAGIC = b"\x28\xb5\x2f\xfd"
+
+
+def zstd(ctx, data, decompress=False):
+    rc, out, err = sh([ctx.implrun(), "zstd-decompress" if decompress else "zstd-compress"], inp=data, binary=True, timeout=60)
+    return out if rc == 0 else None
+
+
+def encoding_of(name, args):
+    if name.endswith(".gz") or "--gzin" in args:
+        return "gz"
+    if name.endswith(".zst") or "--zstdin" in args:
+        return "zst"
+    if name.endswith(".z") or "--zin" in args:
+        return "z"
+    return None
+
+
+def decompress(ctx, enc, b):
+    try:
+        if enc == "gz":
+            return gzip.decompress(b)
+        if enc == "z":
+            return zlib.decompress(b)
+        if enc == "zst":
+            return zstd(ctx, b, decompress=True) if b.startswith(ZSTD_MAGIC) else None
+    except Exception:
+        return None
 
 
 def snap_files(res):
@@ -93,6 +122,76 @@ def build_plan(sc, snap, killed):
         if n not in obs:
             obs[n] = snap.get(n)
     return entries, obs
+
+
+TRACE_RE = re.compile(r"^\d+ (\w+)#\d+\((.*)\) = (-?\d+)(.*)$")
+
+
+def project_trace(lines, scratch_hint=None):
+    """file-system calls on scratch files -> events of the Coq acceptor.  Dropped: failed calls (they changed nothing) except
+    stat and close; opening/closing the INPUT file; the lstat that os.Rename does itself (flag AT_SYMLINK_NOFOLLOW = 256)."""
+    def rel(pth):
+        pth = pth.strip('"')
+        if "/verif-c19-" in pth:
+            pth = pth.split("/verif-c19-", 1)[1].split("/", 1)[1]
+        return os.path.normpath(pth)
+    ev = []
+    for l in lines:
+        m = TRACE_RE.match(l)
+        if not m:
+            continue
+        name, args, ret = m.group(1), m.group(2), int(m.group(3))
+        a = [x.strip() for x in args.split(", ")]
+        if name == "newfstatat":
+            if a[-1] != "256":
+                ev.append((0, rel(a[1]), "", 0))
+        elif name == "openat":
+            if "O_CREAT" in a[2] and ret >= 0:
+                ev.append((1, rel(a[1]), "", int(a[3], 8)))
+        elif name == "write":
+            mm = re.match(r"\d+<(.*?)>", a[0])
+            if mm and is_temp(mm.group(1)) and ret >= 0:
+                ev.append((2, rel(mm.group(1)), "", ret))
+        elif name == "close":
+            mm = re.match(r"\d+<(.*?)>", a[0])
+            if mm and is_temp(mm.group(1)):
+                ev.append((3, rel(mm.group(1)), "", 0))
+        elif name in ("renameat", "renameat2", "rename"):
+            if ret >= 0:
+                ps = [x for x in a if x.startswith('"')]
+                ev.append((4, rel(ps[0]), rel(ps[1]), 0))
+        elif name in ("fchmodat", "chmod"):
+            if ret >= 0:
+                ps = [x for x in a if x.startswith('"')]
+                ev.append((5, rel(ps[0]), "", int(a[-1], 8)))
+        elif name in ("unlinkat", "unlink"):
+            if ret >= 0:
+                ps = [x for x in a if x.startswith('"')]
+                ev.append((6, rel(ps[0]), "", 0))
+    return ev
+
+
+def trace_case(sc, res, killed):
+    """Coq term for Harness.chk_trace: the plan gets the temp names and the write sizes seen in the trace"""
+    ev = project_trace(res.get("trace") or [])
+    if not ev:
+        return None, ev
+    creates = [e[1] for e in ev if e[0] == 1]
+    orig = {f[0]: (f[1], f[2]) for f in sc.files}
+    entries, ci = [], 0
+    for i, n in enumerate(sc.names):
+        n = os.path.normpath(n)
+        oc = sc.outcomes[i]
+        mode = orig.get(n, (b"", 0))[1]
+        tname, lens = "mlr-in-place-#%d" % i, []
+        if oc not in ("Missing", "RefusedEarly", "CreateFails") and ci < len(creates):
+            tname = creates[ci]
+            ci += 1
+            lens = [e[3] for e in ev if e[0] == 2 and e[1] == tname]
+        entries.append((n, tname, mode, OC[oc], lens))
+    ent = "[" + "; ".join(f"({cb(n.encode())}, {cb(t.encode())}, {m}, {code}, [{'; '.join(str(x) for x in ls)}])" for n, t, m, code, ls in entries) + "]"
+    tr = "[" + "; ".join(f"({c}, {cb(p1.encode())}, {cb(p2.encode()) if p2 else '[]'}, {n})" for c, p1, p2, n in ev) + "]"
+    return f"({0 if killed else 1}, {ent},\n {tr})", ev
 
 
 def coq_case(kind, sc, entries, obs):
@@ -167,6 +266,12 @@ def make_scenarios(ctx):
     S.append(Scenario("success:gzin-flag", ["--gzin", "--icsv", "--ocsv", "put", "$d=2"], [("plainname", gzip.compress(plain, mtime=0), 0o600)], ["Succeeds"]))
     S.append(Scenario("success:zlib-suffix", ["--icsv", "--ojson", "cat"], [("w.csv.z", zlib.compress(plain), 0o640)], ["Succeeds"]))
     S.append(Scenario("success:zin-flag", ["--zin", "--icsv", "--ojson", "cat"], [("w2", zlib.compress(plain), 0o640)], ["Succeeds"]))
+    zplain = zstd(ctx, plain)
+    if zplain and zplain.startswith(ZSTD_MAGIC):
+        S.append(Scenario("success:zstd-suffix", ["--icsv", "--ocsv", "put", "$d=3"], [("k.csv.zst", zplain, 0o640), ("h2.csv", plain, 0o600)], ["Succeeds", "Succeeds"]))
+        S.append(Scenario("success:zstdin-flag", ["--zstdin", "--icsv", "--ojson", "cat"], [("k2", zplain, 0o604)], ["Succeeds"]))
+    else:
+        ctx.cov["zstd"] = "implrun zstd-compress unavailable"
     # failures that come back through the error path, in the MIDDLE file
     bad_csv = b"a,b,c\n1,2,3\n4,5\n6,7,8\n"
     f3 = three()
@@ -199,19 +304,19 @@ def expected_transforms(ctx, sc):
         st, out, err = alone(ctx, sc.args, n, content)
         if st != 0:
             continue
-        enc = "gz" if (n.endswith(".gz") or "--gzin" in sc.args) else "z" if (n.endswith(".z") or "--zin" in sc.args) else None
+        enc = encoding_of(n, sc.args)
         if enc is None:
             sc.transformed[n] = out
         else:
             r = R.run_inplace(ctx, [(n, content, mode)], sc.args)
             b = snap_files(r).get(n, (b"", 0))[0]
-            try:
-                plain = gzip.decompress(b) if enc == "gz" else zlib.decompress(b)
-            except Exception:
-                plain = None
+            plain = decompress(ctx, enc, b)
             if plain != out:
-                ctx.violation({"class": "inplace-recompression", "scenario": sc.name, "file": n, "what": "after -I the file does not decompress to what the command prints without -I",
-                               "args": sc.args, "observed_head": b[:60].hex(), "expected_plain": out[:200].decode("latin1")})
+                ctx.violation({"class": "inplace-recompression", "scenario": sc.name, "file": n, "encoding": enc, "status": r["status"],
+                               "what": "after -I a compressed input must be compressed the same way and decompress to what the command prints without -I "
+                                       "(zstd: repaired by /repo 4dcee46d7; gzip/zlib: always)",
+                               "how": "mlr -I " + " ".join(sc.args) + " " + n, "args": sc.args, "input_hex": content.hex(),
+                               "observed_head": b[:80].decode("latin1"), "observed_hex_head": b[:16].hex(), "expected_plain": out[:200].decode("latin1")})
             sc.transformed[n] = b
 
 
@@ -219,7 +324,7 @@ def run(ctx):
     ctx.cov["rule"] = ("scenarios = (verb chain, 1-3 files with distinct modes 0640/0600/0755/0644/0604, outcome per file): success (csv->json, per-file header/"
                        "head/NR/FNR/FILENAME, begin/end per file, sort, .gz/.z suffix, --gzin/--zin), failure in the MIDDLE file through the error path "
                        "(malformed CSV, CSV schema change in the writer, DSL redirect error), direct-exit DSL failures (asserting_*, UDF return type), refusals "
-                       "(bzip2, --prepipe, --prepipex, missing file, URL-looking name, zstd); each returned run, plus ptrace fault injection of one failing "
+                       "(bzip2, --prepipe, --prepipex, missing file, URL-looking name); zstd by suffix and --zstdin rewritten compressed; each returned run, plus ptrace fault injection of one failing "
                        "system call (ENOSPC write, EACCES temp create, EIO close, EXDEV rename, EPERM chmod; first and middle file), plus SIGKILL at the entry of "
                        "EVERY file system call of 2-3-file runs (all crash points; subsampled for the multi-chunk output in quick tier). Compared: bytes+mode of "
                        "every file in the directory vs Model.exec / the set of Model.crash_state prefixes, under vm_compute.")
@@ -229,7 +334,7 @@ def run(ctx):
     ctx.assumptions = ["os.CreateTemp returns a name that does not exist", "a crash is a process kill; the kernel completes or does not start each system call"]
     forbidden_gate(ctx, ["Base", "C19"])
     ok, why = check_props(ctx, "C19/Props.v", ["C19/Harness.vo", "C19/Proofs.vo"])
-    terms, meta = [], []
+    terms, meta, tterms, tmeta = [], [], [], []
     S = make_scenarios(ctx)
     nviol = 0
 
@@ -245,6 +350,19 @@ def run(ctx):
         entries, obs = build_plan(sc, snap, killed)
         terms.append(coq_case(0 if killed else 1, sc, entries, obs))
         meta.append((sc, res, killed, how, inject, bool(bad)))
+        tterm, ev = trace_case(sc, res, killed)
+        if tterm:
+            tterms.append(tterm)
+            tmeta.append((sc, res, killed, how, ev, bool(bad)))
+            ctx.dist("trace:" + ("killed" if killed else "returned"))
+            # bytes handed to the temp file = the transformed bytes, for every file that was renamed over
+            for (n, content, mode) in sc.files:
+                new = sc.transformed.get(n)
+                if not killed and new is not None and snap.get(n, (None,))[0] == new and new != content:
+                    tn = next((e[1] for e in ev if e[0] == 4 and e[2] == os.path.normpath(n)), None)
+                    wrote = sum(e[3] for e in ev if e[0] == 2 and e[1] == tn)
+                    if tn and wrote != len(new):
+                        ctx.violation({"class": "inplace-trace-bytes", "scenario": sc.name, "file": n, "written": wrote, "file_length": len(new), "how": how})
         if bad and nviol < 8:
             seen = ctx.cov.setdefault("finding_witnesses", {})
             seen[bad[0][0]] = seen.get(bad[0][0], 0) + 1
@@ -256,9 +374,8 @@ def run(ctx):
     with ctx.timed("impl"):
         for sc in S:
             expected_transforms(ctx, sc)
-            res = R.run_inplace(ctx, sc.files, sc.args, names=sc.names)
+            res = R.trace_run(ctx, sc.files, sc.args, names=sc.names)          # to completion, under the ptrace supervisor (for the trace)
             observe(sc, res, False, "mlr -I " + " ".join(sc.args) + " " + " ".join(sc.names))
-        zstd_probe(ctx)
         # ---- fault injection: one failing system call
         rng = ctx.rng
         inj_sc = [s for s in S if s.name in ("success:csv-to-json", "success:gzin-flag")]      # files of one scenario have the same syscall structure
@@ -321,7 +438,15 @@ def run(ctx):
     with ctx.timed("coq_cases"):
         bad, err = coq_eval_mismatches(ctx, "C19", "C19.Model C19.Harness",
                                        "Z * list (bytes * bytes * Z * Z * list bytes) * list (bytes * bytes * Z) * list (bytes * option (bytes * Z))", "chk", terms, shard=len(terms) // JOBS + 1)
-    ctx.cov["correspondence"] = {"cases": len(terms), "mismatches": len(bad)}
+        bad_t, err_t = coq_eval_mismatches(ctx, "C19trace", "C19.Model C19.Harness", "Z * list (bytes * bytes * Z * Z * list Z) * list tev", "chk_trace",
+                                           tterms, shard=len(tterms) // JOBS + 1)
+    ctx.cov["correspondence"] = {"cases": len(terms), "mismatches": len(bad), "trace_cases": len(tterms), "trace_mismatches": len(bad_t)}
+    err = err + err_t
+    for i in bad_t[:4]:
+        sc, res, killed, how, ev, had = tmeta[i]
+        if not had:
+            ctx.violation({"broken": "correspondence C19.Harness.chk_trace (the traced file-system calls are not the model's op sequence)", "scenario": sc.name,
+                           "how": how, "outcomes": sc.outcomes, "status": res["status"], "projected_trace": [list(e) for e in ev][:60]}, found_input=False)
     if err:
         ctx.violation({"broken": "correspondence-evaluation", "detail": err[-2000:]}, found_input=False)
         return
@@ -333,35 +458,15 @@ def run(ctx):
                        "status": res["status"], "observed": {n: [len(b), oct(m), b[:60].decode("latin1")] for n, (b, m) in snap_files(res).items()}}, found_input=False)
 
 
-def zstd_probe(ctx):
-    """zstd input: decompressed in-process on read; in-place mode must either re-compress or refuse (property: inputs that cannot be
-    updated in place are refused before anything is modified)."""
-    plain = b"x=1\nx=2\n"
-    rc, out, err = sh([ctx.implrun(), "zstd-compress"], inp=plain, binary=True, timeout=60)
-    if rc != 0 or not out.startswith(b"\x28\xb5\x2f\xfd"):
-        ctx.cov["zstd_probe"] = "implrun zstd-compress unavailable"
-        return
-    for name, args in (("k.zst", ["put", "$z=3"]), ("k", ["--zstdin", "put", "$z=3"])):
-        res = R.run_inplace(ctx, [(name, out, 0o640)], args)
-        ctx.count(("zstd", name))
-        ctx.dist("returned:zstd")
-        b, m = snap_files(res).get(name, (b"", 0))
-        refused = res["status"] != 0 and b == out
-        recompressed = b.startswith(b"\x28\xb5\x2f\xfd")
-        ctx.cov.setdefault("zstd_probe", {})[name] = {"status": res["status"], "refused": refused, "recompressed": recompressed}
-        if not refused and not recompressed:
-            st2, o2, e2 = alone(ctx, args, name, b)
-            ctx.violation({"class": CL_ZSTD, "how": "mlr -I " + " ".join(args) + " " + name, "input_hex": out.hex(), "status": res["status"],
-                           "observed": b[:200].decode("latin1"), "expected": "refusal with the file unchanged (as for bzip2), or a zstd-compressed result",
-                           "what": "a zstd-compressed input is replaced by UNCOMPRESSED text under the same name; the same command can no longer read the file",
-                           "second_run_status": st2, "second_run_stderr": e2.decode("latin1")[-200:]})
-            return
-
-
 def replay(ctx, path):
     obj = json.loads(Path(path).read_text())
-    if obj.get("class") == CL_ZSTD:
-        zstd_probe(ctx)
+    if obj.get("class") in ("inplace-recompression", "inplace-zstd-rewritten-uncompressed"):
+        content = bytes.fromhex(obj["input_hex"])
+        name = obj.get("file", "k.zst")
+        sc = Scenario(obj.get("scenario", "replay"), obj.get("args", ["put", "$z=3"]), [(name, content, 0o640)], ["Succeeds"])
+        expected_transforms(ctx, sc)          # reports again if the result is still not a compressed form of the expected text
+        ctx.count(("replay", path))
+        print("replay: mlr -I %s %s -> %s" % (" ".join(sc.args), name, "still fails" if ctx.violations else "rewritten compressed"))
         return
     if "files" not in obj:
         print("replay: nothing replayable in", path)
